@@ -443,8 +443,10 @@ pub fn run_corrupt(scn: &Scenario, prop: &str, explore: bool) -> RunResult {
         // ---- C21: doctor heals repairable damage and preserves frames
         if prop == "C21" {
             std::fs::write(&path, &bytes).unwrap();
-            let opts = DoctorOptions { rebuild_time_index: r.chance(1, 3), rebuild_lex_index: r.chance(1, 3), rebuild_vec_index: r.chance(1, 4), vacuum: r.chance(1, 5), dry_run: false, quiet: true };
+            let opts = DoctorOptions { rebuild_time_index: r.chance(1, 3), rebuild_lex_index: r.chance(1, 3), rebuild_vec_index: r.chance(1, 4), vacuum: r.chance(1, 3), dry_run: false, quiet: true };
             let before = std::fs::read(&path).unwrap_or_default();
+            // what a read-only open of the damaged file serves before doctor touches it
+            let pre: Option<Vec<(String, String, String)>> = guarded("pre-doctor reads", || Memvid::open_read_only(&path).ok().map(|mut m| observe_reads(&mut m, n_frames))).ok().flatten();
             // dry run first: must not touch the file
             let dry = guarded("doctor dry-run", || Memvid::doctor(&path, DoctorOptions { dry_run: true, ..opts.clone() }).map(|_| ()));
             if let Err(p) = &dry {
@@ -464,6 +466,23 @@ pub fn run_corrupt(scn: &Scenario, prop: &str, explore: bool) -> RunResult {
                     *stats.entry("doctor_ran").or_default() += 1;
                     if report.status == DoctorStatus::Failed {
                         *stats.entry("doctor_reported_failed").or_default() += 1;
+                        // Even a doctor run that gives up must not remove or alter a frame: whatever a
+                        // read-only open served correctly before the run is still served afterwards.
+                        if let Some(pre) = &pre {
+                            *stats.entry("failed_doctor_compared").or_default() += 1;
+                            let post: Option<Vec<(String, String, String)>> = guarded("post-doctor reads", || Memvid::open_read_only(&path).ok().map(|mut m| observe_reads(&mut m, n_frames))).ok().flatten();
+                            for (id, (b, o)) in pre.iter().zip(orig.iter()).enumerate() {
+                                let was_good = b.0 == o.0 && o.1 != "-" && b.1 == o.1;
+                                if !was_good {
+                                    continue;
+                                }
+                                let still = post.as_ref().and_then(|p| p.get(id)).is_some_and(|a| a.0 == o.0 && a.1 == o.1);
+                                if !still {
+                                    vs.push(mk(&["C21"], "frames-preserved", format!("{regname}:doctor-failed"), format!("{m:?} in {regname}: frame {id} was readable and correct before doctor ({:?}); doctor reported Failed and afterwards {}", opts, if post.is_some() { "the frame reads differently or not at all" } else { "the file no longer opens" })));
+                                    break;
+                                }
+                            }
+                        }
                     } else {
                         match try_open(&path).mem {
                             None => vs.push(mk(&["C21"], "opens-after-doctor", regname.to_string(), format!("{m:?} in {regname}: doctor reported {:?} but the file does not open", report.status))),
